@@ -30,7 +30,7 @@ def reflect_check(ctx):
 
 def run(ctx):
     reflect_check(ctx)
-    c03.run_machine(ctx, lambda e: e["ret"]["op"] in SETTER_OPS, 160, 100000, classes=ALL)
+    c03.run_machine(ctx, lambda e: e["ret"]["op"] in SETTER_OPS, 160, 2000, classes=ALL)
     # cross-check the spec's SizeProps table with reflection (from the emitted edges we know what the spec models)
     return ctx.finish(rule=RULE, assumptions=[
         "targets are current value x lambda^degree with lambda in the spec's alphabet (1/2, 3; thorough adds 2, 1/10, 10)",
